@@ -38,7 +38,17 @@ def run(ctx):
             ctx.violation({'check': 'C17', 'kind': 'served_after_cancel', 'variant': sc.get('variant')}, 'scenario %s: a connection attempted after shutdown was served' % sc['name'], sc)
         if not sc.get('late_dial_refused'):
             ctx.violation({'check': 'C17', 'kind': 'listener_still_open', 'variant': sc.get('variant')}, 'scenario %s: dial succeeded after Serve returned' % sc['name'], sc)
-    cov = {'traces_validated_against_impl': len(accepted), 'samples': [{'trace_prefix': lc.sample_trace(lines)}],
+    # the program as shipped: SIGTERM, and once more while an HTTP/1.1 exchange is still in flight (ProxyServer.tla: Cancel is idempotent; Serve returns
+    # only after the drain) - the process must survive the second signal and end by itself, normally, once the exchange is over
+    import realbin
+    ts = realbin.two_signal_shutdown(ctx, realbin.build(ctx))
+    if not ts.get('alive_after_first_signal'):
+        ctx.violation({'check': 'C17', 'kind': 'returned_before_drain', 'variant': 'real_binary'}, 'real binary: the process ended within 0.4 s of SIGTERM although an HTTP/1.1 exchange was in flight: %s' % ts, ts)
+    elif not ts.get('alive_after_second_signal'):
+        ctx.violation({'check': 'C17', 'kind': 'killed_by_repeated_signal', 'variant': 'real_binary'}, 'real binary: a second SIGTERM during the drain ended the process (exit status %s) while an HTTP/1.1 exchange was in flight' % ts.get('exit_status'), ts)
+    elif ts.get('exit_status') != 0 or not ts.get('log_says_server_closed'):
+        ctx.violation({'check': 'C17', 'kind': 'serve_did_not_return', 'variant': 'real_binary'}, 'real binary: after the last exchange ended the process did not end normally with "Server closed": %s' % ts, ts)
+    cov = {'real_binary_two_signal_shutdown': {k: v for k, v in ts.items() if k != 'log_tail'}, 'traces_validated_against_impl': len(accepted), 'samples': [{'trace_prefix': lc.sample_trace(lines)}],
            'shutdown_states_constructed': nshut,
            'active_exchange_scenario': [{k: s.get(k) for k in ('name', 'slow_exchange', 'late_during_drain', 'returned_before_drain')} for s in report if s.get('variant') == 'active'],
            'latencies_s': {s['name']: (s.get('latency') or {}).get('serve_return_s') for s in report if s['family'] == 'shutdown'},
